@@ -43,6 +43,14 @@ def wrap_rules(facts, rep):
     rd = facts.method(r"^read::ZipFile<", "read", r"std::io::Read")
     cs = [t["callee"] for _, t in rd.calls()]
     good = any(c.endswith("::get_reader") for c in cs) and not any(c.endswith("get_raw_reader") for c in cs)
+    # ... and is nothing but that delegation: no path may answer a read without asking the checksum-verifying reader
+    prd = paths(rd)
+    for p_ in prd:
+        r_ = p_["ret"]
+        real = [a for a, v in p_["decisions"] if a != "#iter"]
+        good = good and not real and r_ is not None and r_[0] == "call" and r_[1].endswith("io::Read::read") and \
+            any(x[0] == "call" and x[1].endswith("::get_reader") for x in walk(r_[2][0])) and r_[2][1] == ("arg", 2, "buf")
+    good = good and len(prd) >= 1
     ok &= rep.check(good, rule, "ZipFile::read->get_reader", where(rd, rd.span), "ZipFile::read uses the decoding reader",
                     "ZipFile::read no longer goes through get_reader() (calls %s)" % [c.split("::")[-1] for c in cs])
     # both constructors of a decoding ZipFile use make_reader
@@ -199,5 +207,8 @@ def run(ctx, rep):
     args_rules(facts, rep)
     ae2_rules(facts, rep)
     table_rules(facts, rep)
+    if facts.find(r"^aes::AesReaderValid"):
+        from rules.C16 import mac_rules
+        mac_rules(facts, rep)          # reported as C04/C16-MAC: AE-2 entries have no CRC, the MAC is their only integrity check
     count_rule(facts, rep, rule="C04-COUNT", only=r"Crc32Reader")
     rep.assume("CRC-32 (crc32fast) detects single-bit and burst errors by construction")
